@@ -266,7 +266,7 @@ Inductive instr :=
 | IDeclClass                            (* DeclareClass (+ DefineGlobal name := nil) *)
 | IInheritBad                           (* Inherit with a superclass that is not a class *)
 | IDefClass (c : idx) (z : Z)           (* methods, DefineClass, the global now holds the class *)
-| IUseClass (c : idx)                   (* print(C<c>.new().m()) *)
+| IUseClass (c : idx)                   (* print(C<c>); print(C<c>.new().m()); print(type(C<c>.new())) *)
 | IPush (catch : bool)                  (* PushExcHandler *)
 | IPop                                  (* PopExcHandler *)
 | IThrow (z : Z)                        (* throw z *)
@@ -384,7 +384,8 @@ Definition step (i : instr) (s : mstate) : mstate * list instr :=
       else (ms_with_st (Panicked "Expected ClassDef.") s, [])
   | IUseClass cl =>
       match gget (GCls cl) (c_globals c) with
-      | Some (VClass z) => (ms_print (show_Z z) s, [])
+      (* the class object was built by DeclareClass from the name in the statement: it prints that name *)
+      | Some (VClass z) => (ms_print (class_s cl) (ms_print (show_Z z) (ms_print (class_s cl) s)), [])
       | _ => (m_raise KName (name_error (cname_s cl)) s, [])
       end
   | IPush catch =>
